@@ -43,6 +43,9 @@ pub fn programs() -> Vec<(&'static str, &'static str, Vec<(&'static str, &'stati
         ),
         ("selector-fns", "a { b: selector-extend(\".a .b\", \".b\", \".c .d\"); c: selector-unify(\".a.e\", \".f\"); d: is-superselector(\".a\", \".a.b\"); } .z:not(.a) { x: y; } .w { @extend .a; }", vec![]),
         ("error-arglist", "@mixin m($a) { b: $a; } a { @include m(1, $zebra: 2, $apple: 3); }", vec![]),
+        // the same source and files under two option sets (the text after `@` in the name is the load path)
+        ("theme@themes/light", "@import \"theme\"; a { b: $t; }", vec![("themes/light/_theme.scss", "$t: light;"), ("themes/dark/_theme.scss", "$t: dark;")]),
+        ("theme@themes/dark", "@import \"theme\"; a { b: $t; }", vec![("themes/light/_theme.scss", "$t: light;"), ("themes/dark/_theme.scss", "$t: dark;")]),
     ]
 }
 
@@ -57,9 +60,9 @@ fn fs_of(files: &[(&str, &str)]) -> MemFs {
 /// compile program i (quiet, expanded) and return the byte-exact result text
 fn run_prog(i: usize) -> String {
     let ps = programs();
-    let (_, src, files) = &ps[i];
+    let (name, src, files) = &ps[i];
     let fs = fs_of(files);
-    let cfg = Cfg::scss();
+    let cfg = Cfg { load_paths: name.split_once('@').map(|x| vec![x.1.to_string()]).unwrap_or_default(), ..Cfg::scss() };
     compile_env(src, &cfg, &Env { fs: &fs, logger: &grass_compiler::NullLogger }).bytes()
 }
 
